@@ -43,7 +43,63 @@ func installMinLenHook(c *core.Ctx) int64 {
 		}
 		return 0, false
 	}
+	// capacity: the frame is a prefix of a buffer of ReceiveBufSize bytes; when every
+	// Acknowledge installed from the wire was validated against a lower bound, and the
+	// local defaults are constants, that bound is a lower bound of cap(frame)
+	ackF := c.P.Field("uacp", "Conn", "ack")
+	rbs := c.P.Field("uacp", "Acknowledge", "ReceiveBufSize")
+	capMin := int64(-1)
+	if ackF != nil && rbs != nil {
+		capMin = ackLowerBound(c, ackF, rbs)
+	}
+	ssax.MinCapHook = func(s ssa.Value, facts []ssax.Fact) (int64, bool) {
+		s = ssax.Strip(s)
+		ex, ok := s.(*ssa.Extract)
+		if !ok || ex.Index != 0 || capMin < 0 {
+			return 0, false
+		}
+		call, ok := ex.Tuple.(*ssa.Call)
+		if !ok || ssax.Callee(call) != recvObj {
+			return 0, false
+		}
+		ev := errResult(call)
+		for _, f := range facts {
+			if f.Op == token.EQL && ssax.IsNil(f.Y) && denotes(f.X, ev) {
+				return capMin, true
+			}
+		}
+		return 0, false
+	}
 	return min
+}
+
+// ackLowerBound: the smallest lower bound k such that every wire-derived
+// Acknowledge installed into Conn.ack satisfies ReceiveBufSize >= k (-1 if one is unchecked).
+func ackLowerBound(c *core.Ctx, ackF, rbs *types.Var) int64 {
+	best := int64(-1)
+	stores := wireAckStores(c, ackF)
+	for _, st := range stores {
+		k := int64(-1)
+		for _, fact := range ssax.FactsAt(st) {
+			if ld := loadedField(fact.X); ld.f == rbs && ssax.Strip(ld.base) == ssax.Strip(st.Val) {
+				if n, ok := ssax.ConstInt(fact.Y); ok {
+					if fact.Op == token.GEQ && n > k {
+						k = n
+					}
+					if fact.Op == token.GTR && n+1 > k {
+						k = n + 1
+					}
+				}
+			}
+		}
+		if k < 0 {
+			return -1
+		}
+		if best < 0 || k < best {
+			best = k
+		}
+	}
+	return best
 }
 
 func c05(c *core.Ctx) {
@@ -63,7 +119,7 @@ func c05(c *core.Ctx) {
 		return
 	}
 	minLen := installMinLenHook(c)
-	defer func() { ssax.MinLenHook = nil }()
+	defer func() { ssax.MinLenHook = nil; ssax.MinCapHook = nil }()
 
 	c.Rule("C05.reader", "the only reads from the connection in packages uacp, uasc, opcua and server are io.ReadFull calls inside (*uacp.Conn).Receive (frame boundaries depend on the declared size only, never on TCP segmentation)", 2)
 	c.Rule("C05.shape", "Receive reads exactly b[:hdrlen], decodes that header, and then reads exactly b[hdrlen:MessageSize]; both size checks (MessageSize > ReceiveBufSize, MessageSize < hdrlen) lie between the two reads with error returns on their failing edges; every non-nil result is b[:MessageSize] of the buffer allocated in this call and is returned only after the body read succeeded", 5)
